@@ -5,6 +5,8 @@ sys.path.insert(0, '/verif')
 from harness import common, engine
 common.prime()
 DESCR = {
+ "C15-prefix-segment-names-a-function": "a location whose first segment names a function and that has two or more further segments (f.g.a) does not exist, yet find_in_ast spends one further segment on every function definition it meets and returns an argument of a LATER function (def C(..) / def x(q, a): [C, meth, a] -> x.a)",
+ "C14-prefix-segment-names-a-function": "see C15-prefix-segment-names-a-function",
  "AST-non-string-default-under-a-str-mentioning-type": "a numeric or boolean default under a type that mentions str (Union[int, str], Literal[-1, 'auto']) is handed to quote(): the class emitter and the default sentence raise AttributeError, a falsy value is treated as absent, a negative one comes back as an unevaluated ast.UnaryOp",
  "C07-container-default-left-as-ast-node": "a list / tuple / dict literal as signature default of a function or method (`def f(x=[])`) is left in the description as an unevaluated ast node (parse.class_ with __init__ evaluates it)",
  "AST-prose-starting-with-optional-wraps-the-type": "an entry whose prose starts with \"(Optional)\" or \"Optional\" is read back with its type wrapped in Optional[...] (docstring_parsers._set_name_and_type): the declared type is not preserved",
